@@ -495,6 +495,9 @@ func thoroughExtras(prop string, known KnownFile, res *Summary) {
 	if os.Getenv("VERIF_NO_SELFTEST") == "" {
 		cmd := exec.Command("sh", filepath.Join(verifDir, "selftest", "run.sh"), "^"+prop+"_")
 		cmd.Env = append(os.Environ(), "SELFTEST_LENIENT=1")
+		if os.Getenv("SELFTEST_JOBS") == "" {
+			cmd.Env = append(cmd.Env, "SELFTEST_JOBS=4") // four mutants at a time
+		}
 		out, _ := cmd.CombinedOutput()
 		killed, survived, skipped := 0, 0, 0
 		var surv []string
